@@ -300,6 +300,11 @@ impl<'a, 'tcx> BodyCx<'a, 'tcx> {
                 if let TyKind::Adt(d, _) = ty.kind() {
                     fields.push(("adt", J::s(dpath(tcx, d.did()))));
                 }
+                if let Const::Unevaluated(uv, _) = c {
+                    if let Some(p) = uv.promoted {
+                        fields.push(("promoted", J::Int(p.as_usize() as i128)));
+                    }
+                }
                 let txt = full_paths!(format!("{}", c));
                 let mut t = txt;
                 if t.len() > 160 {
@@ -697,6 +702,28 @@ fn dump_fn<'tcx>(tcx: TyCtxt<'tcx>, ldid: LocalDefId) -> Option<J> {
         blocks.push(cx.block(bb.as_usize(), data));
     }
     f.push(("blocks", J::Arr(blocks)));
+    // promoted constants (e.g. `&IncrStatus::Stabilising` in a comparison) are separate bodies
+    let mut proms = Vec::new();
+    for (pi, pbody) in tcx.promoted_mir(did).iter_enumerated() {
+        let pcx = BodyCx { tcx, body: pbody, def: ldid, tenv };
+        let mut pblocks = Vec::new();
+        for (bb, data) in pbody.basic_blocks.iter_enumerated() {
+            pblocks.push(pcx.block(bb.as_usize(), data));
+        }
+        let mut plocals = Vec::new();
+        for (l, decl) in pbody.local_decls.iter_enumerated() {
+            plocals.push(J::obj(vec![
+                ("id", J::Int(l.as_usize() as i128)),
+                ("ty", J::s(ty_str(decl.ty))),
+            ]));
+        }
+        proms.push(J::obj(vec![
+            ("index", J::Int(pi.as_usize() as i128)),
+            ("locals", J::Arr(plocals)),
+            ("blocks", J::Arr(pblocks)),
+        ]));
+    }
+    f.push(("promoted", J::Arr(proms)));
     Some(J::obj(f))
 }
 
